@@ -5,6 +5,7 @@ Grammar (line oriented, '#' at column 0 starts a comment outside text sections):
 
   @tu <path relative to /repo>             default translation unit of the proofs in this file
   @use <other spec file>                   import its @function/@stub/@decl blocks
+  @import-proofs <spec file> <proof>...    proofs of another property's spec file that also decide this property
   @decl ... @end                           raw C placed after the emitted types/globals (ghost state, macros)
   @stub <cname> ... @end                   raw C declaration *with contract* of a function that is not
                                            extracted (platform seam, callee abstracted by its contract)
@@ -57,6 +58,7 @@ class Spec:
     def __init__(self):
         self.tu = None; self.decls = []; self.stubs = {}; self.functions = {}; self.proofs = []
         self.files = []
+        self.imports = []     # (spec file, [proof names]) decided by another property's spec but also part of this one
 
     def load(self, path, top=True):
         path = os.path.abspath(path)
@@ -80,6 +82,9 @@ class Spec:
             if key == '@tu':
                 if top: self.tu = w[1]
                 file_tu = w[1]
+                i += 1
+            elif key == '@import-proofs':
+                if top: self.imports.append((os.path.join(os.path.dirname(path), w[1]), w[2:]))
                 i += 1
             elif key == '@use':
                 self.load(os.path.join(os.path.dirname(path), w[1]), top=False); i += 1
